@@ -7,6 +7,7 @@ import Banyan.Lemmas.AggC10
 import Banyan.Lemmas.TopC10
 import Banyan.Lemmas.GroupC10
 import Banyan.Lemmas.PlanC10
+import Banyan.Lemmas.TnpC10
 
 namespace Banyan.C10
 
@@ -582,5 +583,81 @@ theorem groupkey_legacy_counterexample :
 /-- the repaired key (every component delimited) identifies exactly the tuple of group-by tag values. -/
 theorem groupkey_exact_injective (mask : List Bool) (t₁ t₂ : List String) :
     groupKey .exact mask t₁ = groupKey .exact mask t₂ ↔ selectTags mask t₁ = selectTags mask t₂ := Iff.rfl
+
+/-! ## 8. The TopN post-processor (`topNPostProcessor.Put`, reducer of `dquery/topn.go processTopNResponse`) -/
+
+/-- the latest-version entries after a sequence of arrivals `(entity, value, version)` of one timestamp, or `none`
+    when some arrival is not monotone (see `truthStep`). -/
+def truthRun (asc : Bool) : List TnEntry → List (String × Int × Int) → Option (List TnEntry)
+  | T, [] => some T
+  | T, a :: as =>
+    match truthStep asc T a.1 a.2.1 a.2.2 with
+    | none => none
+    | some T' => truthRun asc T' as
+
+def tnPutSeq (n : Nat) (asc : Bool) (tl : List TnEntry) (arr : List (String × Int × Int)) : List TnEntry :=
+  arr.foldl (fun tl a => tnPut n asc tl a.1 a.2.1 a.2.2) tl
+
+theorem tnInv_run (n : Nat) (asc : Bool) (hn : 0 < n) (arr : List (String × Int × Int)) (tl T T' : List TnEntry)
+    (inv : TnInv n asc tl T) (h : truthRun asc T arr = some T') : TnInv n asc (tnPutSeq n asc tl arr) T' := by
+  induction arr generalizing tl T with
+  | nil => simp only [truthRun, Option.some.injEq] at h; subst h; exact inv
+  | cons a as ih =>
+    simp only [truthRun] at h
+    cases hs : truthStep asc T a.1 a.2.1 a.2.2 with
+    | none => rw [hs] at h; exact absurd h (by simp)
+    | some T1 =>
+      rw [hs] at h
+      exact ih _ T1 (tnInv_step n asc tl T T1 a.1 a.2.1 a.2.2 hn inv hs) h
+
+/-- **Replica de-duplication and eviction of the TopN reducer cooperate**: after any sequence of *monotone* arrivals
+    for one timestamp — identical replicas, overwrites that do not make an entity worse seen in any order with their
+    stale copies — the queue (`n ≥ 1`) holds each entity at most once, every kept entry is the latest-version entry
+    of its entity, no entity outside the queue is better than one inside, and the queue is full unless it holds all:
+    it is the `n` best of the de-duplicated latest-version values. -/
+theorem topn_put_spec (n : Nat) (asc : Bool) (hn : 0 < n) (arr : List (String × Int × Int)) (T : List TnEntry)
+    (h : truthRun asc [] arr = some T) :
+    let q := tnPutSeq n asc [] arr
+    (q.map (·.2.1)).Nodup ∧ (∀ e ∈ q, e ∈ T) ∧
+    (∀ t ∈ T, t ∉ q → ∀ e ∈ q, (if asc then e.1 ≤ t.1 else t.1 ≤ e.1)) ∧
+    (q.length = n ∨ ∀ t ∈ T, t ∈ q) ∧ q.length ≤ n := by
+  intro q
+  have inv := tnInv_run n asc hn arr [] [] T (tnInv_nil n asc) h
+  refine ⟨inv.nodup, inv.sub, ?_, ?_, inv.len⟩
+  · intro t ht hnt e he
+    exact (okey_le asc _ _).mp (inv.dropped t ht hnt e he)
+  · by_cases c : q.length < n
+    · exact Or.inr (inv.all c)
+    · have hl : q.length ≤ n := inv.len
+      exact Or.inl (by omega)
+
+/-- non-vacuity, and the scenario of the seeded change n1: stale replica first (`A=10 v1`), the fresh replica
+    raises the lowest entity (`A=50 v2`), then `C=30` arrives: `A` and `C` are kept. -/
+example : truthRun false [] [("B", 20, 1), ("A", 10, 1), ("A", 50, 2), ("B", 20, 1), ("C", 30, 1)]
+      = some [(20, ("B", 1)), (50, ("A", 2)), (30, ("C", 1))] ∧
+    (sortElems false (tnPutSeq 2 false [] [("B", 20, 1), ("A", 10, 1), ("A", 50, 2), ("B", 20, 1), ("C", 30, 1)])).map
+      (fun e => (e.2.1, e.1)) = [("A", 50), ("C", 30)] := by decide
+
+/-- Without the `heap.Fix` after the in-place update the heap still ranks `A` by its old value 10: `C=30` is compared
+    with the root `A` (now 50) and rejected — `[A=50, B=20]` instead of `[A=50, C=30]`. -/
+theorem tnp_nofix_counterexample :
+    ([("B", 20, 1), ("A", 10, 1), ("A", 50, 2), ("B", 20, 1), ("C", 30, 1)].foldl
+        (fun (tl : List TnEntryR) (a : String × Int × Int) => tnPutNoFix 2 false tl a.1 a.2.1 a.2.2) []).map
+      (fun e => (e.2.1.1, e.2.2)) = [("B", 20), ("A", 50)] := by decide
+
+/-- F42: the hypothesis of `topn_put_spec` is needed. A newer version that makes a kept entity worse, after another
+    entity was evicted, leaves the queue with `[C=30, A=10]` although the latest values are `A=10, B=20, C=30`. -/
+theorem tnp_nonmonotone_counterexample :
+    truthRun false [] [("A", 50, 1), ("B", 20, 1), ("C", 30, 1), ("B", 20, 1), ("A", 10, 2)] = none ∧
+    (sortElems false (tnPutSeq 2 false [] [("A", 50, 1), ("B", 20, 1), ("C", 30, 1), ("B", 20, 1), ("A", 10, 2)])).map
+      (fun e => (e.2.1, e.1)) = [("C", 30), ("A", 10)] := by decide
+
+/-- F43: `Flush` with an aggregation keeps a bounded heap while it is still adding up; the answer depends on the
+    order in which the timelines are visited (Go map iteration): SUM, top 2 of `A=5+5, B=6, C=7, D=8`. -/
+theorem tnp_flush_order_counterexample :
+    tnFlush .sum 2 false [(1, [(5, ("A", 1)), (6, ("B", 1))]), (2, [(7, ("C", 1)), (8, ("D", 1))]), (3, [(5, ("A", 1))])]
+      = [(8, "D"), (7, "C")] ∧
+    tnFlush .sum 2 false [(1, [(5, ("A", 1)), (6, ("B", 1))]), (3, [(5, ("A", 1))]), (2, [(7, ("C", 1)), (8, ("D", 1))])]
+      = [(10, "A"), (8, "D")] := by decide
 
 end Banyan.C10
